@@ -25,6 +25,7 @@ import (
 	"github.com/relex/slog-agent/transform/tparsetime"
 	"github.com/relex/slog-agent/transform/tredactemail"
 	"github.com/relex/slog-agent/transform/treplace"
+	"github.com/relex/slog-agent/transform/tswitch"
 	"github.com/relex/slog-agent/transform/ttruncate"
 	"github.com/relex/slog-agent/transform/tunescape"
 	"github.com/relex/slog-agent/util"
@@ -304,4 +305,35 @@ func VerifC12_ConcurrentPipelinesAgree() {
 		}
 	}
 	sym.Reach("done")
+}
+
+// VerifC16_MatchConditionShapes: the `match` block of if / switch / drop with a
+// condition as the YAML loader delivers it for a well-formed value, for a value
+// left out (`app:` / `~` / `null`: the zero matcher, the custom unmarshaller is
+// not called for null nodes) and for an unknown field: whatever is accepted
+// builds and processes a record of up to 3 arbitrary bytes without panicking.
+//
+//verif:reach accepted rejected
+//verif:paths 100000
+func VerifC16_MatchConditionShapes() {
+	var match bmatch.LogMatcherConfig
+	switch sym.Choice("condition", 3) {
+	case 0:
+		match = bmatch.VerifMatch("app", "!!str-start", "a")
+	case 1:
+		match = bmatch.VerifNullMatch("app")
+	case 2:
+		match = bmatch.VerifMatch("nope", "!!str-start", "a")
+	}
+	inner := []verifTC{{Value: &tdelfields.Config{Keys: []string{"tag"}}}}
+	var tc verifTC
+	switch sym.Choice("transform", 3) {
+	case 0:
+		tc = verifTC{Value: &tif.Config{Match: match, Then: inner}}
+	case 1:
+		tc = verifTC{Value: &tswitch.Config{Cases: []tswitch.CaseConfig{{Match: match, Then: inner}}}}
+	case 2:
+		tc = verifTC{Value: &tdrop.Config{Match: match, Percentage: 100, MetricLabel: "d"}}
+	}
+	verifAcceptedRuns(tc)
 }
